@@ -219,6 +219,10 @@ class RandomWalksGenerator:
                         # No new states found, stay in place.
                         array_new_states = array_current_states
 
+            else:
+                # Without history every step moves to a neighbor, so it counts as a step.
+                i_step_corrected += 1
+
             # 3. Select desired number of states randomly.
             perm = torch.randperm(array_new_states.size(0), device=graph.device)
             array_current_states = array_new_states[perm][:width]
